@@ -1408,14 +1408,20 @@ func TestVerifC04(t *testing.T) {
 			var c, v int
 			fmt.Sscanf(job, "attr/count=%d,vlen=%d", &c, &v)
 			sx := subAttr()
+			// the plain initial state is searched one call deeper than the two start-time ones
 			full, max := enum.Pick(r, 3, 5), enum.Pick(r, 6, 8)
 			bounds(&sx, full, max)
+			r.Bound("attr.all_histories_up_to_length(start-time attribute states)", full)
 			r.Bound("attr.AttributeCountLimit", attrCountLimits)
 			r.Bound("attr.AttributeValueLengthLimit", attrVlenLimits)
 			L := unlimited
 			L.attrs, L.vlen = c, v
 			for i := range sx.inits {
-				x.bfs(&sx, L, i, full, max)
+				f := full
+				if i > 0 {
+					f = full - 1
+				}
+				x.bfs(&sx, L, i, f, max)
 			}
 		case strings.HasPrefix(job, "evln/"):
 			var e, l int
